@@ -100,7 +100,8 @@ C09c(e) == e.usedrt => (C02c(e) /\ C11a(e))
 \* a zero wait timeout never waits
 C10b(e) == e.mode = "nb" => ~e.pendwait
 \* NoRuntimeSpecified: nothing was created, destroyed or detached by that call
-C10c(e) == (GetDone(e) /\ e.result = "no_runtime" /\ e.solo) => (e.live = e.b_live /\ e.creating = 0 /\ C03a(e))
+\* (idle objects whose recycle check failed in this very call are rejected as usual)
+C10c(e) == (GetDone(e) /\ e.result = "no_runtime" /\ e.solo) => (e.live = e.b_live - e.nrej /\ e.creating = 0 /\ C03a(e))
 \* after timeouts the slot is free again and the rejected objects are gone
 C10d(e) == e.timedout => (C02b(e) /\ C02c(e) /\ C04b(e))
 
